@@ -517,7 +517,7 @@ def ab_wrappers(P):
     return out
 
 
-def structural_eq(P, key, adt):
+def structural_eq(P, key, adt, only=None):
     """(ok, detail): does the PartialEq::eq `key` of struct `adt` answer true exactly when every field of the two operands is equal?
     Derived impls pass by construction; a hand-written one is evaluated on its own paths over all 2^n "field i equal" combinations
     (a condition that is not a comparison of the same field of both operands - a packed key, a subset of fields - makes it non-structural)."""
@@ -526,15 +526,21 @@ def structural_eq(P, key, adt):
     b = P.fns.get(key)
     if b is None:
         return False, f"no {key}"
-    if b.get("derived"):
+    if b.get("derived") and only is None:
         return True, "derived"
-    fields = [f["name"] for f in P.adt(adt)["variants"][0]["fields"]]
+    fields = [f["name"] for f in P.adt(adt)["variants"][0]["fields"] if only is None or f["name"] in only]
     a0, a1 = ("obj", ("param", 0, b["locals"][1].get("n", "self"))), ("obj", ("param", 1, b["locals"][2].get("n", "a1")))
 
     def strip(x):
-        while x[0] in ("refv", "discr", "cast") or (x[0] == "obj" and x not in (a0, a1)):
-            x = x[2] if x[0] == "cast" else x[1]
-        return x
+        while True:
+            if x[0] in ("refv", "discr") or (x[0] == "obj" and x not in (a0, a1)):
+                x = x[1]
+            elif x[0] == "cast":
+                x = x[2]
+            elif x[0] == "field" and x[1] not in (a0, a1) and isinstance(x[1], tuple) and x[1][0] in ("field", "obj", "refv"):
+                x = x[1]            # a part of a field (newtype payload): the comparison is still about that field
+            else:
+                return x
 
     def atom(t_):
         xs = None
@@ -552,7 +558,8 @@ def structural_eq(P, key, adt):
                 return p_[2]
         return None
     try:
-        lv = T.Engine(P).tabulate(key)
+        inner = {k_ for k_ in P.fns if k_.endswith("core::cmp::PartialEq>::eq") and k_ != key}
+        lv = T.Engine(P, opaque=inner).tabulate(key)
     except T.NotTabulable as e:
         return False, f"not tabulable: {e}"
     for asg in itertools.product((True, False), repeat=len(fields)):
